@@ -717,7 +717,9 @@ func validateStops(
 	}
 
 	for idx, stop := range input.Stops {
-		err := validateStop(idx, stop, allStopIDs)
+		// precedes and succeeds relate stops: an alternate stop has a model
+		// stop per vehicle that lists it, it can not be named there.
+		err := validateStop(idx, stop, stopIDs)
 		if err != nil {
 			return err
 		}
